@@ -86,10 +86,20 @@ def integer(depth: int) -> st.SearchStrategy:
     )
 
 
+NFC_PAIRS = [("\u00e9", "e\u0301"), ("\u00c5", "A\u030a"), ("\u00c5", "\u212b"), ("\u1e69", "s\u0323\u0307"), ("\u1e69", "s\u0307\u0323"), ("\uac00", "\u1100\u1161")]
+
+
+def nfc_comparison() -> st.SearchStrategy:
+    """Canonically equivalent strings spelled differently: == must hold (the Specification compares NFC-normalised)."""
+    return st.tuples(st.sampled_from(NFC_PAIRS), st.sampled_from(["==", "!="]), st.booleans(), STYLE, st.sampled_from(["", "x", "'"])).map(
+        lambda t: ["bin", t[1], ["str", t[4] + (t[0][1] if t[2] else t[0][0]), t[3]], ["str", t[4] + (t[0][0] if t[2] else t[0][1]), t[3] + 1]]
+    )
+
+
 def boolean(depth: int) -> st.SearchStrategy:
     lit = bool_literal()
     if depth <= 0:
-        return lit
+        return st.one_of(lit, lit, lit, nfc_comparison())
     sub = st.deferred(lambda: boolean(depth - 1))
     r = st.deferred(lambda: rat(depth - 1))
     s = st.deferred(lambda: string(depth - 1))
